@@ -379,6 +379,11 @@ class ExprMixin:
         if isinstance(item, SVal) and isinstance(item.kind, KOpt) and isinstance(k, (KDict, KSet)):
             inner = SVal(item.kind.inner, item.t[1:])
             return zand(znot(item.t[0]), self.contains(st, fr, cont, inner))
+        if isinstance(k, (KDict, KSet)) and (isinstance(k.key, KRef) or k.key == KName) \
+                and not getattr(k.key, 'nullable', False) and isinstance(item, SVal):
+            # keys of this container are never None: `None in d` is False
+            has = ops.dict_has(cont, item) if isinstance(k, KDict) else ops.set_has(cont, item)
+            return zand(item.z != 0, has)
         if isinstance(k, KDict):
             return ops.dict_has(cont, item)
         if isinstance(k, KSet):
@@ -617,8 +622,27 @@ class ExprMixin:
         for s, vals in self.seq([e.value, e.slice], st, fr):
             if is_exc(vals):
                 outs.append((s, vals))
+            elif isinstance(vals[0], SVal) and getattr(vals[0].kind, 'default_cls', None) and not fr.spec:
+                outs += self.defaultdict_get(s, fr, e.value, vals[0], vals[1])
             else:
                 outs += self.getitem(s, fr, vals[0], vals[1])
+        return outs
+
+    def defaultdict_get(self, st, fr, base_expr, d, key):
+        """collections.defaultdict.__getitem__: a missing key is created with the default factory."""
+        outs = []
+        tt, ff = self.fork(st, ops.dict_has(d, key))
+        if tt is not None:
+            outs += self.getitem(tt, fr, d, key)
+        if ff is not None:
+            for s2, obj in self.construct(ff, fr, ClassVal(d.kind.default_cls, self.reg.classes[d.kind.default_cls].module), [], {}):
+                if is_exc(obj):
+                    outs.append((s2, obj))
+                    continue
+                new = ops.dict_set(d, key, obj)
+                self.fold_update(s2, fr, d, new, key, obj)
+                for s3, oc in self.assign(base_expr, new, s2, fr):
+                    outs.append((s3, obj if oc[0] == 'next' else oc[1]))
         return outs
 
     def getitem(self, st, fr, base, idx):
